@@ -1,11 +1,12 @@
 #!/bin/bash
-# Runs every check of a tier sequentially; prints a one-line verdict per property.
+# Runs every check of a tier sequentially; prints a one-line verdict per property; full output in logs/<ID>.<tier>.log
 TIER="${1:-quick}"; shift
 IDS="${@:-C01 C02 C03 C04 C05 C06 C07 C08 C09 C10 C11 C12 C13 C14 C15 C16 C17 C18 C19 C20}"
 cd "$(dirname "$0")/.."
+mkdir -p logs
 for id in $IDS; do
   s=$(date +%s)
-  out=$(./check $id $TIER 2>&1); rc=$?
+  ./check $id $TIER > logs/$id.$TIER.log 2>&1; rc=$?
   e=$(date +%s)
-  echo "$id rc=$rc $((e-s))s $(echo "$out" | grep -E '^(OK|VIOLATION|INCONCLUSIVE)' | head -2 | tr '\n' ' ')"
+  echo "$id rc=$rc $((e-s))s $(grep -E '^(OK|VIOLATION|INCONCLUSIVE)' logs/$id.$TIER.log | head -2 | tr '\n' ' ')"
 done
